@@ -695,10 +695,8 @@ fn try_run_func(
         let mut status = 0;
         for cr in cr_list {
             status = cr.status;
-            stdout.push_str(cr.stdout.trim());
-            stdout.push(' ');
-            stderr.push_str(cr.stderr.trim());
-            stderr.push(' ');
+            stdout.push_str(&cr.stdout);
+            stderr.push_str(&cr.stderr);
         }
         let mut cr = CommandResult::new();
         cr.status = status;
